@@ -17,7 +17,7 @@ pub fn show_tests(tcs: &[TestCase]) -> String {
     if tcs.is_empty() { return "ok:-".into(); }
     format!("ok:{}", tcs.iter().map(|t| format!("{}^{}^{}^{}^{}^{}", hex(t.title.as_bytes()), hex(t.shell_expression.as_bytes()),
         if t.expectations.is_empty() { "_".to_string() } else { t.expectations.iter().map(|e| hex(e.original_string().as_bytes())).collect::<Vec<_>>().join("+") },
-        t.exit_code.map_or("-".to_string(), |c| c.to_string()), t.line_number, crate::p_config::show_tc(&t.config).replace(' ', "~"))).collect::<Vec<_>>().join(","))
+        t.exit_code.map_or("-".to_string(), |c| c.to_string()), t.line_number, crate::p_config::show_tc(&t.config).replace(' ', "~"))).collect::<Vec<_>>().join("&"))
 }
 
 // ---------------------------------------------------------------- Cram
@@ -119,7 +119,7 @@ pub fn main(args: &[String], w: &mut dyn Write) {
                 else { let d = gen_cram(&mut r); let lines = render_cram(&d); let t = join_lines(&mut r, &lines); writeln!(w, "{}", cram_case(&p, &ser_cram(&d), &t)).unwrap(); }
             }
         }
-        "md" => { let _ = MarkdownParser::new(mk.clone(), &["scrut"], None); crate::p_md::main(&mk, count, &mut r, w); }
+        "md" => { let _ = MarkdownParser::new(mk.clone(), &["scrut"], None); crate::p_md::main(&mk, count / nsh, &mut r, w); }
         _ => panic!("docs kind"),
     }
 }
